@@ -57,10 +57,12 @@ pub fn level_of(prop: &str) -> &'static str {
 pub fn width() -> usize {
     hashbrown::verif::GROUP_WIDTH
 }
+/// Which build this is: the portable build is made by `rustc-wrap.sh`, which tells the harness crate so
+/// (the group width alone does not identify the scanner implementation).
 pub fn backend() -> &'static str {
-    if width() == 16 {
-        "sse2"
-    } else {
+    if cfg!(hbmc_portable) || cfg!(miri) {
         "portable"
+    } else {
+        "sse2"
     }
 }
